@@ -59,6 +59,10 @@ type Term struct {
 	a, b, c *Term
 	defined int32 // solver epoch in which a define-fun was emitted
 	atom    int32 // solver epoch in which a p<id> literal was emitted
+	sup     *Term // the single variable this term depends on (fastpath.go)
+	supDone bool
+	supMany bool
+	bm      *byteSet
 }
 
 type termKey struct {
